@@ -390,10 +390,14 @@ pub fn compute_error(qps: &QuantizedParameters, signal: &[i32], errors: &mut [i3
     };
     let maxabs = maxabs_signal * sumabs_coefs as u64;
     if maxabs < i32::MAX as u64 {
+        #[cfg(flacenc_verif)]
+        crate::verif_hook::point("cov.lpc.err32", signal.len(), qps.order());
         // larger lanes here can alleviate inefficiency of unaligned reads.
         compute_error_impl::<i32, 64>(qps, signal, errors);
     } else {
         // This is very inefficient, but should rarely happen in BPS=16bit case.
+        #[cfg(flacenc_verif)]
+        crate::verif_hook::point("cov.lpc.err64", signal.len(), qps.order());
         let signal64: Vec<i64> = signal.iter().map(|v| (*v).into()).collect();
         let mut errors64 = vec![0i64; signal64.len()];
         compute_error_impl::<i64, 64>(qps, &signal64, &mut errors64);
